@@ -29,7 +29,7 @@ CHECKS = {
     ),
     "C02": dict(
         level="exploration",
-        text="Seeded histories over every tracked entry point (add/remove/aspirate/dispense/transfer/distribute/evo_aspirate/evo_dispense) in which rejections are aimed at the limit at a chosen element or sub-step (far beyond, one grid step, one ulp, inf) and about one operation in twelve is interrupted at a robotools source line; after every operation - accepted, rejected or interrupted - limits, non-negativity, the frame condition and an exact-arithmetic must-reject condition are checked. Sampling over seeds.",
+        text="Seeded histories over every tracked entry point (add/remove/aspirate/dispense/transfer/distribute/evo_aspirate/evo_dispense) in which rejections are aimed at the limit at a chosen element or sub-step (far beyond, one grid step, one ulp, inf) and about one operation in twelve is interrupted at a robotools source line; after every operation - accepted, rejected or interrupted - limits, non-negativity, the frame condition, per-well bounds (a well never gains more than the call adds to it nor loses more than it removes) and an exact-arithmetic must-reject condition are checked. Sampling over seeds.",
         note="Trusted: harness-side plan of the requested moves (verif/sim/ops.py) and exact Fraction arithmetic; must-reject is only demanded beyond a few ulp of float slack; spurious rejections are deliberately not judged.",
         technique="deterministic simulation + fault injection: aimed rejections at every call site and sub-step, line-level interrupts, exact-arithmetic must-reject oracle",
         ref="DESIGN.md section 5 / C02",
@@ -43,16 +43,16 @@ CHECKS = {
     ),
     "C04": dict(
         level="exploration",
-        text="Seeded long histories of add/remove (direct and through aspirate/dispense of both devices) over every geometry class and argument shape (scalar, lists with repeats and trough aliases, 2-D slices, broadcast scalars), about one call in six aimed to be rejected at a chosen element; an exact-arithmetic ledger is stepped in lock-step and compared after every call, with prefix-or-nothing semantics after rejected calls and a bit-exact frame condition on unaddressed wells. Sampling over seeds.",
+        text="Seeded long histories of add/remove (direct, through aspirate/dispense and through transfer/distribute of both devices) over every geometry class and argument shape (scalar, lists with repeats and trough aliases, 2-D slices, broadcast scalars), about one call in six aimed to be rejected at a chosen element; an exact-arithmetic ledger is stepped in lock-step and compared after every call, with prefix-or-nothing semantics after rejected single-step calls, per-well bounds after rejected multi-step calls, and a bit-exact frame condition on unaddressed wells. Sampling over seeds.",
         note="Trusted: the ledger (verif/sim/ledger.py) and the harness-side column-major pairing by explicit loops; exact equality on the quarter grid, 1e-9 relative float slack elsewhere.",
         technique="deterministic simulation: seeded histories with interleaved rejections, lock-step exact reference model (ledger), narrow resynchronisation after faults",
         ref="DESIGN.md section 5 / C04",
     ),
     "C05": dict(
         level="exploration",
-        text="Seeded histories of transfers, distributions, dispenses of known composition and removals in exact-friendly volume regimes, stepped in lock-step with an exact volumetric mixing model; mixing, finiteness, normalisation, inertness of removals, conservation of every component and the default naming rule are checked after every step. The statement has no fault dimension, so this is the weakest fit of the technique: its value is the reference model over long histories. Sampling over seeds.",
+        text="Seeded histories of transfers, distributions, dispenses of known composition and removals in exact-friendly volume regimes, stepped in lock-step with an exact volumetric mixing model; mixing, finiteness, normalisation, inertness of removals, conservation of every component and the default naming rule are checked after every step. The statement itself has no fault dimension (the weakest fit of the technique: its value is the reference model over long histories); rejected operations are nevertheless interleaved in half of the runs - the wells a rejected call addressed become content-unknown, everything else must be untouched, and the history goes on, so state left behind by a failed call is seen by the later steps. Sampling over seeds.",
         note="Trusted: the ledger's mixing model; wells that received liquid of unknown composition are exempt from the mixing and sum clauses only; for self-overlapping transfers the sub-step order is taken from the emitted records, guarded by the requested flow totals.",
-        technique="deterministic simulation: seeded histories, lock-step exact-arithmetic reference model, conservation invariant",
+        technique="deterministic simulation + fault injection: seeded histories with interleaved aimed rejections, lock-step exact-arithmetic reference model, conservation invariant",
         ref="DESIGN.md section 5 / C05",
     ),
     "C11": dict(
